@@ -78,3 +78,68 @@ Print Assumptions C05_refuted_without_apply_skip.
 Theorem C05_hypotheses_satisfiable : Contract tiny_ok /\ Contract tiny_lagging /\ TwoCopies tiny_lagging.
 Proof. exact hypotheses_satisfiable. Qed.
 Print Assumptions C05_hypotheses_satisfiable.
+
+(* ---- the IRC model is an instance (IrcProofs/MarkerFrame.v, Refine.v, RefineSys.v) ---- *)
+
+(* ================================================================================================
+   C05 instantiated with the IRC model (IrcProofs/RefineSys.v).  [irc_sys] : St = IRC server + a ghost
+   variable (client message id of the last client entry per session id, surviving the session),
+   Entry = Irc.Apply.entry, Out = omsg, Sess = session id, step = Apply.apply_entry, lastpost = the ghost
+   marker (= IRCServer.LastPostMessage for every session that exists, RefineSys.coh_lastpost).  The
+   machine-side hypotheses of [Contract] are theorems; the raft-side and client-side ones stay hypotheses. *)
+From stdpp Require Import gmap.
+From Coq Require Import Strings.String.
+From RV Require Import Irc.State Irc.Cmds Irc.Apply IrcProofs.Top IrcProofs.Refine IrcProofs.RefineSys.
+From RV Require IrcProofs.Examples.
+
+Theorem C05_irc_machine : forall e net NodeT L applied node_state node_outs nreq r_cmid r_len r_seen r_idx r_ack,
+  let M := irc_sys e net NodeT L applied node_state node_outs nreq r_cmid r_len r_seen r_idx r_ack in
+  MarkerInit M /\ MarkerSet M /\ MarkerOnly M /\ ApplySkip M.
+Proof.
+  intros. split; [apply irc_MarkerInit|]. split; [apply irc_MarkerSet|]. split; [apply irc_MarkerOnly|apply irc_ApplySkip].
+Qed.
+Print Assumptions C05_irc_machine.
+
+Theorem C05_irc : forall e net NodeT L applied node_state node_outs nreq r_cmid r_len r_seen r_idx r_ack,
+  let M := irc_sys e net NodeT L applied node_state node_outs nreq r_cmid r_len r_seen r_idx r_ack in
+  NodeStateIsReplay M -> ProposalAppends M -> ProposalEntry M -> LogFromRequests M -> AckImpliesCommitted M ->
+  CmidNonzero M -> ClientNoReturn M -> EarlierMessagesSettled M ->
+  SameStream M /\ AckDurable M /\ ProcessedOnce M /\ SenderOrder M /\ DeliveredOnce M.
+Proof. exact irc_C05. Qed.
+Print Assumptions C05_irc.
+
+(* what [irc_sys] replays IS the IRC model: on a well-formed nice log (CreateSession ids fresh, no message of
+   death after a copy of itself) state_of / outs_of are Top.run / the concatenated output of Apply.apply_entry,
+   and the ghost marker of every existing session is its LastClientMessageId *)
+Theorem C05_irc_faithful : forall e net NodeT L applied node_state node_outs nreq r_cmid r_len r_seen r_idx r_ack es sv' outs,
+  let M := irc_sys e net NodeT L applied node_state node_outs nreq r_cmid r_len r_seen r_idx r_ack in
+  wf_history e (init_server net) es -> nice_history e (init_server net) ∅ es ->
+  run_out e (init_server net) es = Some (sv', outs) ->
+  fst (state_of M es) = sv' /\ outs_of M es = outs /\ coh_all sv' (snd (state_of M es)).
+Proof. exact ghost_from_init. Qed.
+Print Assumptions C05_irc_faithful.
+
+(* FINDING about the hypotheses themselves: with lastpost := IRCServer.LastPostMessage (no ghost) the IRC model
+   satisfies MarkerInit and ApplySkip but NOT MarkerSet (entry of an unknown session) and NOT MarkerOnly
+   (DeleteSession resets the marker to 0): the marker rule of Sys/EndToEnd.v speaks about sessions that stay alive *)
+Theorem C05_irc_plain : 
+  (forall e net NodeT L applied node_state node_outs nreq r_cmid r_len r_seen r_idx r_ack,
+     let M := irc_sys_plain e net NodeT L applied node_state node_outs nreq r_cmid r_len r_seen r_idx r_ack in
+     MarkerInit M /\ ApplySkip M) /\
+  ~ MarkerSet plain0 /\ ~ MarkerOnly plain0.
+Proof.
+  split; [intros; split; [apply plain_MarkerInit|apply plain_ApplySkip]|].
+  split; [exact plain_MarkerSet_refuted|exact plain_MarkerOnly_refuted].
+Qed.
+Print Assumptions C05_irc_plain.
+
+(* non-vacuity: a concrete system over the IRC model whose log holds a post twice satisfies the whole contract;
+   the first copy is processed, the second is skipped by every node; its log is well-formed and nice *)
+Theorem C05_irc_example :
+  Contract ex_sys /\ TwoCopies ex_sys /\
+  ProcessedOnce ex_sys /\ SenderOrder ex_sys /\ DeliveredOnce ex_sys /\
+  effective_at ex_sys 1%N 11%N 1 /\ skipped_at ex_sys 2 /\
+  wf_history Examples.ex_env (init_server "robustirc.net") ex_L /\
+  nice_history Examples.ex_env (init_server "robustirc.net") ∅ ex_L.
+Proof. split; [apply ex_sys_contract|]. split; [apply ex_sys_contract|]. exact ex_sys_exactly_once. Qed.
+Print Assumptions C05_irc_example.
